@@ -106,6 +106,9 @@ def leaf_family():
         for l0, l1 in itertools.product(LEAVES, repeat=2):
             if l0 == l1 and "{1}" in sk:
                 continue
+            if "pi" in (l0, l1) and not ({l0, l1} & {"x", "a", "k", "t", "time"}):
+                # pi combined with a literal only is folded to one (irrational) double by C compilers
+                continue
             e = sk.format(l0, l1)
             # keep 0 out of divisor/power positions that are identically undefined
             if l1 == "0" and ("/ {1}" in sk or "** {1}" in sk):
